@@ -874,9 +874,42 @@ func init() {
 		}
 		m := &markettypes.MsgBuyDirect{Buyer: a.Addr}
 		n := g.R.Weighted([]float64{0, 6, 2, 1})
+		var first *marketv1.SellOrder
 		for i := 0; i < n; i++ {
 			o := cands[g.R.Intn(len(cands))]
-			m.Orders = append(m.Orders, g.buyOrder(a, v, o, mode))
+			if first != nil && g.R.Chance(0.6) {
+				// prefer another order of the same batch, ideally asking in another denom
+				var same, cross []*marketv1.SellOrder
+				for _, c := range cands {
+					if c.BatchKey == first.BatchKey && c.Id != first.Id {
+						same = append(same, c)
+						if c.MarketId != first.MarketId {
+							cross = append(cross, c)
+						}
+					}
+				}
+				if len(cross) > 0 {
+					o = cross[g.R.Intn(len(cross))]
+					g.W.Probe("buy_same_batch_across_markets")
+				} else if len(same) > 0 {
+					o = same[g.R.Intn(len(same))]
+				}
+			}
+			bo := g.buyOrder(a, v, o, mode)
+			if first != nil && o.MarketId != first.MarketId && g.R.Chance(0.3) && len(m.Orders) > 0 && m.Orders[0].BidPrice != nil {
+				// a sloppy client bids every order in the first order's denom (everything else as generated):
+				// must be rejected, the order asks in another denom
+				d := m.Orders[0].BidPrice.Denom
+				bo.BidPrice.Denom = d
+				if bo.MaxFeeAmount != nil {
+					bo.MaxFeeAmount.Denom = d
+				}
+				g.W.Probe("buy_later_order_bid_in_first_orders_denom")
+			}
+			if first == nil {
+				first = o
+			}
+			m.Orders = append(m.Orders, bo)
 		}
 		return m
 	})
